@@ -1030,12 +1030,15 @@ qb_log_custom_close(int32_t t)
 
 	target = qb_log_target_get(t);
 
+	/* the logging thread must not be inside this target's logger meanwhile */
+	qb_log_thread_pause(target);
 	if (target->close) {
 		qb_atomic_int_set(&in_logger, QB_TRUE);
 		target->close(t);
 		qb_atomic_int_set(&in_logger, QB_FALSE);
 	}
 	qb_log_target_free(target);
+	qb_log_thread_resume(target);
 }
 
 static int32_t
